@@ -526,7 +526,7 @@ fn construct_label(path: &[(String, bool)], questions: &HashMap<String, Vec<Stri
 
 pub fn run(tier: Tier) -> i32 {
     let rep = Report::new("C04", tier, "model_checking");
-    rep.set_rule("SCOPE: (a) bundled voice: every model (duration, 3 streams x 5 states, 2 GV) x every label of the label space (corpus + one-group recombinations of the cover set + every distinct corpus value of every field group in 2-4 base labels + typed sweeps of every numeric field over 0..N + phoneme symbols from the voice's own patterns) vs an independent reader of the file + HTS wildcard matcher, bit-exact on means/variances/voicing weight and equal on tree/PDF index; (b) every distinct question of the bundled voice x the label space: crate matcher vs wildcard oracle; (c) generated files: all binary tree shapes with <= 3 internal nodes x 4 leaf numberings (in order, reversed, permuted, tied: one PDF reached by several branches) x quoted/unquoted x question triples from a pool of real questions (incl. the regex-fallback ones) x layout deviations (states, streams, vector length, window set, order in which the state trees are listed, numbering and listing order of the internal nodes: sequential, non-contiguous ids, ids counted backwards, yes-subtree rows first; the six orders of the spectrum options; stream keys MGC/F0/BAP instead of MCP/LF0/LPF; header keys in reverse order, data blocks in reverse order and/or separated by filler bytes), checked against both the independent reader and the generator's spec (sentinel floats); (d) metadata, options, windows, engine defaults vs the header; distinct = (file, model, state, label); non-trivial = lookups through a tree with more than one leaf");
+    rep.set_rule("SCOPE: (a) bundled voice (also re-packed: data blocks in reverse order and/or separated by 0xFF filler): every model (duration, 3 streams x 5 states, 2 GV) x every label of the label space (corpus + one-group recombinations of the cover set + every distinct corpus value of every field group in 2-4 base labels + typed sweeps of every numeric field over 0..N + phoneme symbols from the voice's own patterns) vs an independent reader of the file + HTS wildcard matcher, bit-exact on means/variances/voicing weight and equal on tree/PDF index; (b) every distinct question of the bundled voice x the label space: crate matcher vs wildcard oracle; (c) generated files: all binary tree shapes with <= 3 internal nodes x 4 leaf numberings (in order, reversed, permuted, tied: one PDF reached by several branches) x quoted/unquoted x question triples from a pool of real questions (incl. the regex-fallback ones) x layout deviations (states, streams, vector length, window set, order in which the state trees are listed, numbering and listing order of the internal nodes: sequential, non-contiguous ids, ids counted backwards, yes-subtree rows first; the six orders of the spectrum options; stream keys MGC/F0/BAP instead of MCP/LF0/LPF; header keys in reverse order, data blocks in reverse order and/or separated by filler bytes), checked against both the independent reader and the generator's spec (sentinel floats), on a stride after a Serialize/Deserialize round trip of the loaded voice; (d) metadata, options, windows, engine defaults vs the header; distinct = (file, model, state, label); non-trivial = lookups through a tree with more than one leaf");
     rep.assume("labels limited to the stated label space; generated trees have at most 3 internal nodes; the label text matched by the oracle is the label's own serialisation");
     // ---------- question pool from the bundled voice ----------
     let v0b = v0_bytes();
@@ -607,6 +607,29 @@ pub fn run(tier: Tier) -> i32 {
         check_voice_against_reader(&rep, &name, &bytes, &v, &space, &reached);
         rep.eval((space.len() * 18) as u64);
         check_engine_defaults(&rep, &name, &bytes);
+    }
+    // ---------- (a') the bundled voice in other arrangements of its container (hundreds of leaves per tree, unlike the
+    // generated files): blocks in reverse order and/or separated by non-ASCII filler bytes ----------
+    {
+        let sub: Vec<LabelCase> = space.iter().step_by(tier.pick(41, 7)).map(|lc| LabelCase { text: lc.text.clone(), label: lc.label.clone() }).collect();
+        let dummy = Mutex::new(BTreeMap::new());
+        for mode in 1..4u8 {
+            let bytes = repack(v0b, mode);
+            let name = format!("V0 re-packed (blocks {}{})", if mode & 1 != 0 { "in reverse order" } else { "in the usual order" }, if mode & 2 != 0 { ", 0xFF filler between them" } else { "" });
+            rep.eval(1);
+            match catch(|| load_voice_bytes(&bytes)) {
+                Ok(Ok(v)) => {
+                    rep.cmp(1);
+                    if v != *pk(0) {
+                        rep.violation("repacked-differs", format!("{}: the loaded voice differs from the bundled voice", name), json!({"voice": name}));
+                    }
+                    check_voice_against_reader(&rep, &name, &bytes, &v, &sub, &dummy);
+                    check_engine_defaults(&rep, &name, &bytes);
+                }
+                Ok(Err(e)) => rep.violation("repacked-load", format!("{}: a legal arrangement of the bundled voice does not load: {}", name, e), json!({"voice": name})),
+                Err(p) => rep.violation("repacked-load", format!("{}: loading a legal arrangement of the bundled voice panics: {}", name, p), json!({"voice": name})),
+            }
+        }
     }
     // ---------- (e) path construction: labels built to reach the leaves the label space missed ----------
     {
@@ -813,6 +836,25 @@ pub fn run(tier: Tier) -> i32 {
             }
         };
         files_ok.fetch_add(1, Ordering::Relaxed);
+        // on a stride the loaded voice is first sent through its own Serialize/Deserialize round trip (what an application
+        // that caches parsed voices does): it must come back equal, and everything below is then checked on the copy
+        let v = if fi % 16 == 8 {
+            match catch(|| serde_json::to_string(&v).ok().and_then(|t| serde_json::from_str::<jbonsai::model::Voice>(&t).ok())) {
+                Ok(Some(v2)) => {
+                    rep.cmp(1);
+                    if v2 != v {
+                        rep.violation("voice-serde", "a loaded voice is not equal to its own Serialize/Deserialize round trip", json!({"file": name}));
+                    }
+                    v2
+                }
+                _ => {
+                    rep.violation("voice-serde", "a loaded voice does not survive its own Serialize/Deserialize round trip", json!({"file": name}));
+                    return;
+                }
+            }
+        } else {
+            v
+        };
         let l40 = labels_for(&fc.qtriple);
         // spec-side check (sentinels)
         let mut local_leaves: BTreeSet<(usize, usize, usize)> = BTreeSet::new();
